@@ -171,6 +171,35 @@ def produce_unit(u):
                                     acks in (0, 1, -1), i % 40 == 0)))
         if i == 5 and not st.samples:
             st.samples.append(case)
+    # (d) caller-built messages: every field of a Message the caller hands over, the timestamp included, is a
+    # "field value the caller supplied" (timestamp domain with the falsy boundary 0 and the no-timestamp marker -1)
+    from afkak.common import Message
+    if magic == 1:
+        for att in (0, 0x08):
+            for key in KEYS:
+                for val in (None, b"", b"v"):
+                    for tss in itertools.product((0, -1, 1, 7, (1 << 62) + 1), repeat=2):
+                        st.evaluations += 1
+                        case = {"version": version, "explicit_messages": [(att, key, val, ts) for ts in tss]}
+                        try:
+                            msgs = [Message(1, att, key, val, timestamp=ts) for ts in tss]
+                            data = K.encode_produce_request(b"c", 5, [ProduceRequest("t", 0, msgs)], acks=1,
+                                                            timeout=1000, api_version=version)
+                        except Exception:
+                            st.rejected += 1
+                            continue
+                        try:
+                            body = rk.parse_request(data)["body"]
+                            (recs,) = _topic_map(body, ("records",), "produce request")[("t", 0)]
+                            got = [(m["magic"], m["attributes"], m["key"], m["value"], m["timestamp"]) for m in recs]
+                            want = [(1, att, key, val, ts) for ts in tss]
+                            err = None if got == want else "caller-built message fields changed: on the wire %r, supplied %r" % (got, want)
+                        except (rk.ParseError, ValueError, KeyError) as e:
+                            err = "reference parser rejects the request: %s" % e
+                        if err:
+                            bad("C04:Produce-v%d:%s" % (version, err.split(":")[0].split(" %")[0][:60]), err, case)
+                        st.classes.add(_digest(("produce-explicit", version, att, key is None, val is None,
+                                                tuple(t == 0 for t in tss))))
     return st
 
 
@@ -437,7 +466,7 @@ def run(tier, seed, only=None):
         "and the two embedded blobs: the product of boundary ints of each field's width, strings {empty, short, "
         "punctuated, non-ASCII where UTF-8, 249/300 chars}, client ids {empty, ascii, UTF-8, 32767 bytes}, "
         "correlation ids {0,1,2^31-1}, bytes {null, empty, 1 byte, 70000 bytes}, every ordering of every subset of "
-        "<= 3 distinct topic-partitions, 0..2 messages per payload, all codecs, both magics.  An encoder that raises "
+        "<= 3 distinct topic-partitions, 0..2 messages per payload, all codecs, both magics; caller-built format-1 messages over a timestamp domain incl. 0 and -1.  An encoder that raises "
         "emitted no bytes and is counted as `rejected`.  Distinct non-trivial = distinct value-class shapes.")
     rep.assumptions = ["refkafka's strict parser is the grammar (DESIGN.md Appendix A)",
                        "snappy via a format-conformant shim"]
